@@ -240,3 +240,17 @@ def strategy(tier):
         "kind": st.just("file"), "ks": st.lists(st.integers(0, 3), min_size=1, max_size=8), "write_count": st.integers(0, 5),
         "window": win, "steps": st.integers(1, 25)})
     return wone_of(agent, agent, filec)
+
+
+EXHAUSTIVE_DOMAIN = ("file collector: write_count 0..4 x every pattern of records-per-collection in {0,1,2}^4 (cyclic) over 13 timesteps "
+                     "(thorough: {0,1,2,3}^4 and a second window start=2/frequency=2)")
+
+
+def exhaustive(tier):
+    import itertools
+    ks = (0, 1, 2) if tier == "quick" else (0, 1, 2, 3)
+    wins = [{"start": 0, "end": None, "freq": 1}] + ([] if tier == "quick" else [{"start": 2, "end": None, "freq": 2}])
+    for wc in range(5):
+        for pat in itertools.product(ks, repeat=4):
+            for win in wins:
+                yield {"kind": "file", "ks": list(pat), "write_count": wc, "window": win, "steps": 13}
